@@ -4,7 +4,7 @@
 d="$(cd "$1" && pwd)"; shift
 cd /verif
 [ -z "$(git -C /repo status --porcelain)" ] || { echo "/repo is dirty; refusing"; exit 2; }
-git -C /repo apply "$d/patch.diff" 2>/dev/null || git -C /repo apply --3way "$d/patch.diff" >/dev/null 2>&1 || { echo "apply FAILED"; git -C /repo checkout -- . ; git -C /repo reset -q; exit 2; }
+git -C /repo apply "$d/patch.diff" 2>/dev/null || git -C /repo apply --3way "$d/patch.diff" >/dev/null 2>&1 || { echo "SEEDTEST $(basename "$d") apply FAILED"; git -C /repo reset -q --hard HEAD; exit 2; }
 for p in "$@"; do
   out=$(./check "$p" --tier quick 2>&1); rc=$?
   echo "SEEDTEST $(basename "$d") check=$p exit=$rc $(echo "$out" | grep -E '^VIOLATION' | head -1)"
